@@ -85,6 +85,12 @@ func VH16a_prefix() {
 	pre := verif.Bytes("prefix", 8)
 	maxrx := verif.Int("maxrx")
 	verif.Assume(verif.And(maxrx >= 1, maxrx <= 1<<31))
+	// MaxRecvSize 0 = "no limit" (documented: trusted peers only). Even then a NEGATIVE announced length is
+	// malformed and must be refused, not sliced; non-negative lengths in that mode are outside the claim.
+	unlimited := verif.Choice("unlimited", 2) == 1
+	if unlimited {
+		maxrx = 0
+	}
 	var in []byte
 	if ipc {
 		in = append(in, 1)
@@ -99,6 +105,9 @@ func VH16a_prefix() {
 	}
 	sz := int64(uint64(pre[0])<<56 | uint64(pre[1])<<48 | uint64(pre[2])<<40 | uint64(pre[3])<<32 |
 		uint64(pre[4])<<24 | uint64(pre[5])<<16 | uint64(pre[6])<<8 | uint64(pre[7]))
+	if unlimited {
+		verif.Assume(sz < 0)
+	}
 	a0 := verif.AllocBytes()
 	msg, err := rx.Recv()
 	a1 := verif.AllocBytes()
@@ -107,7 +116,7 @@ func VH16a_prefix() {
 	if ipc {
 		nprefix = 2
 	}
-	tooLong := verif.Or(sz < 0, sz > int64(maxrx))
+	tooLong := verif.Or(sz < 0, verif.And(maxrx > 0, sz > int64(maxrx)))
 	verif.Assert(verif.Iff(err == mangos.ErrTooLong, tooLong), "C16/prefix/too-long-iff-over-limit")
 	if err == mangos.ErrTooLong {
 		verif.Reach("too-long")
